@@ -71,4 +71,9 @@ FINDINGS = [
               'SEQUENCE { x BOOLEAN, ..., [[ d INTEGER (0), v BOOLEAN OPTIONAL ]] } value {x, d 0} loses d (per.py:793-798)',
          witness=dict(kind='roundtrip', spec=HDR + 'A ::= SEQUENCE { x BOOLEAN, ..., [[ d INTEGER (0), v BOOLEAN OPTIONAL ]] }' + END,
                       codec='uper', type='A', value={'x': True, 'd': 0})),
+    dict(key='oer-list-of-zero-width-elements-huge-quantity', props=['C08'],
+         text='OER SEQUENCE OF NULL (any zero-width element): a 5 octet input 04 ff ff ff ff announces 2^32 elements and the decoder '
+              'loops over all of them (no element consumes input, nothing bounds the quantity, oer.py:541-549)',
+         witness=dict(kind='decode_steps', spec=HDR + 'A ::= SEQUENCE OF NULL' + END, codec='oer', type='A',
+                      data_hex='04ffffffff', zero_width=True)),
 ]
